@@ -119,6 +119,15 @@ def apply_op(emd, A, B, op, workdir, tag):
         for k in keys:
             d = d[k]
         gb = d
+    elif kind == 'save':
+        for i, c in enumerate((A, B)):
+            if p[0] == 'text':
+                c.to_yaml_text()
+            else:
+                fn = os.path.join(workdir, 'cfg-%s-%d-%d-s.yml' % (tag, os.getpid(), i))
+                c.to_yaml_file(fn)
+                if os.path.exists(fn):
+                    os.unlink(fn)
     elif kind == 'roundtrip':
         out = []
         for i, c in enumerate((A, B)):
